@@ -192,6 +192,16 @@ CHECKS["C13"]["text"] += " Further patterns: 300 integrity-pad bytes after an au
 CHECKS["C14"]["text"] += " 8-bit names contain high bytes that form UTF-8 sequences."
 CHECKS["C16"]["text"] += " Each request of small enumerations is answered node busy once; zero padding after the records is malformed data."
 CHECKS["C17"]["text"] += " Session establishment after an earlier establishment (other connection, same options value): the negotiated suite and the proposal must be the same as without it."
-CHECKS["C18"]["text"] += " Response labels are compared by completion code, not through the library's own String(); all 255 codes; the version-agnostic Dial with live and done contexts."
+CHECKS["C18"]["text"] += " The value of the code label is learned by observation (one response per code) rather than taken from the library's String() or assumed to have a format; it must be non-empty and injective; all 255 codes; the version-agnostic Dial with live and done contexts; a command on a closed connection; a dial without port."
 CHECKS["C19"]["text"] += " Slot 0 first closes an earlier connection twice."
 CHECKS["C20"]["text"] += " Every ID string also through the Full Sensor Record decoder; entity-instance rendering must name the range the predicates name."
+
+# ---- coverage-guided additions (texts only) ------------------------------------
+CHECKS["C05"]["text"] += " Every value of every named wire type goes through its String method, and every successfully decoded layer through fmt (a panic inside a String method is a finding)."
+CHECKS["C06"]["text"] += " Also the no-argument wrappers of V2Session, the five capability wrappers of the DCMI commander (session-less and in session) and the session-less wrappers of the connection."
+CHECKS["C01"]["text"] += " NewSession (the version-agnostic entry point) is used for part of the discovery cases; describing the session (String/Version/ID) between two commands must leave it usable."
+CHECKS["C02"]["note"] += " Thorough: two deviations over the full alphabet from the correct transcript."
+CHECKS["C06"]["note"] += " Thorough: Get SDR reservation/record IDs over all 65 536 values and all 65 536 (offset, length) pairs."
+CHECKS["C12"]["note"] += " Thorough: a fifth suite joins the universe (325 lists x 32 advertised subsets x 3 layouts)."
+CHECKS["C13"]["note"] += " Thorough: virtual deadlines every 250 ms up to 8 s."
+CHECKS["C14"]["note"] += " Thorough: three modifications during one call on 1-2 record repositories, two on 4-5 record ones."
